@@ -106,7 +106,12 @@ def run(tier):
         blocks, comps = ops[id(j)]
         names = free_names(j["tpls"])
         ctxs = [("orig", j.get("ctx") or {})]
-        for wn, wv in weird:
+        # maps made for this program: every attribute name it writes after a dot is present and holds undefined / none / a map
+        # of the same shape (a path whose every element exists and whose leaf is undefined takes its own error path)
+        attrs = sorted(set(a for _, src_ in j["tpls"] for a in re.findall(r"\.([A-Za-z_][A-Za-z0-9_]*)", src_)))[:30]
+        au = {a: {"$undef": 1} for a in attrs}
+        per_job = [("attrs_undef", au), ("attrs_none", {a: None for a in attrs}), ("attrs_nested_undef", {a: dict(au) for a in attrs})] if attrs else []
+        for wn, wv in list(weird) + per_job:
             c = dict(j.get("ctx") or {})
             for n in names:
                 c[n] = wv
